@@ -9,3 +9,10 @@ MUTANTS = [
     {'name': 'find_tuplets respells', 'file': 'partitura/score.py', 'old': '                            for note in note_tuplet:\n                                note.symbolic_duration = dur_type.copy()', 'new': '                            for note in note_tuplet:\n                                note.symbolic_duration = dur_type.copy()\n                                note.alter = note.alter or 0', 'expect': 'NOPITCH'}]
 
 NEUTRALS = []
+
+# changes made by sub-agents that were given only the property text (see /verif/seeded/<id>/): each must stay reported
+SEEDED = [
+    {'name': 'seeded change C11-r2', 'seed': 'C11-r2', 'expect': '|COUNTER|'},
+    {'name': 'seeded change C11', 'seed': 'C11', 'expect': '|DIVS-at-start|'},
+]
+MUTANTS += SEEDED
